@@ -138,6 +138,10 @@ def api_search(chk, n_cases):
             par = oqupy.TempoParameters(dt=dt, epsrel=eps, dkmax=None, subdiv_limit=None)
             corr = oqupy.PowerLawSD(alpha=rng.choice([0.0005, 0.001]), zeta=1, cutoff=10.0, cutoff_type="exponential", temperature=0.0)
         op = rng.choice([0.5 * sz, 0.5 * sx + 0.2 * sz, np.diag([1.0, 1.0]) * 0.3 + 0.5 * sy])
+        if it == 2:
+            # every run: a coupling operator with genuinely complex eigenvectors that is neither symmetric nor antisymmetric
+            # (conj(O) != +-O), with a Hamiltonian and an initial state that are not real either
+            op = 0.4 * sy + 0.3 * sz + 0.2 * sx
         three = (it % 4 == 3)
         if three:
             # a three-level system whose coupling operator has a repeated eigenvalue (non-trivial degeneracy classes), diagonal or rotated
@@ -150,6 +154,8 @@ def api_search(chk, n_cases):
         bath = oqupy.Bath(op, corr)
         kind = rng.choice(["const", "td", "lindblad", "pulse", "even"]) if it >= 2 else ["pulse", "even"][it]
         h0 = 0.4 * sx + 0.3 * sz
+        if it == 2:
+            h0, kind = 0.4 * sx + 0.3 * sz + 0.25 * sy, "const"
         if three:
             a3 = np.array([[rng.gauss(0, 1) + 1j * rng.gauss(0, 1) for _ in range(3)] for _ in range(3)])
             h0 = (a3 + a3.conj().T) / 4
